@@ -127,3 +127,17 @@ Definition cnt (st : strategy) (pr : params) (ps : list prov) (inb : N -> bool) 
 (* the threshold a majority strategy applies *)
 Definition maj_thr (st : strategy) (pr : params) : Z :=
   match template_of st with TMajAtt => Z.of_N (p_threshold pr) | _ => 0%Z end.
+
+(* the content a node returns has the type the strategy's interface fixes *)
+Definition raw_family (st : strategy) (r : raw) : bool :=
+  match st, r with
+  | (AttBest | AttMajority | AttFirst), RAtt _ _ _ _ _ _ => true
+  | (AggBest | AggFirst), RAgg _ _ _ => true
+  | (PropBest | PropFirst), RProp _ _ _ _ => true
+  | (ContribBest | ContribFirst), RContrib _ _ => true
+  | (RootFirst | RootLatest | RootMajority), RRoot _ => true
+  | (HeaderFirst | BlockFirst), ROpaque _ => true
+  | _, _ => false
+  end.
+Definition typed (st : strategy) (ps : list prov) : Prop :=
+  forall p v, In p ps -> pv_beh p = BRespond v -> raw_family st (v_raw v) = true.
